@@ -69,11 +69,31 @@ def ensure_driver():
 # ----------------------------------------------------------------------------------------------
 # model side
 # ----------------------------------------------------------------------------------------------
+CONST1D = {"ok": True}   # set by const1d_probe(): can read-only 1-D views be saved on this tree?
+
+
+def const1d_probe(res):
+    """compile probe: saving rows / 1-D blocks of const arrays (const_subarray<T, 1, T*>)"""
+    src = os.path.join(core.VERIF, "harness", "c17_constview_probe.cpp")
+    rc, out, err = core.sh(["g++", "-std=c++17", "-fsyntax-only", "-I" + core.INCLUDE, src], timeout=600)
+    CONST1D["ok"] = (rc == 0)
+    if rc != 0:
+        errs = [l for l in (out + err).splitlines() if " error" in l]
+        kf = core.match_known(PID, {"harness": "h_serial", "found_by": "api-gap", "operation": "save-readonly-1d-view"})
+        if kf:
+            res.known_finding(kf)
+        else:
+            path = core.write_replay(PID, open(src).read(), {"property": PID, "found-by": "build:a read-only 1-D view cannot be saved",
+                                                             "compiler-said": (errs[0] if errs else "")[:400]})
+            res.violation(path, "saving a read-only 1-D view (row of a const array) does not compile")
+    return CONST1D["ok"]
+
+
 def generate(seed, count, prefix="c"):
     d = workdir()
     prog, obs = os.path.join(d, "prog_%s.txt" % prefix), os.path.join(d, "obs_%s.txt" % prefix)
     rc, out, err = core.sh([DRIVER, "gen", "--seed", str(seed), "--count", str(count), "--prog", prog, "--obs", obs,
-                            "--prefix", prefix], timeout=900)
+                            "--prefix", prefix] + (["--const1d"] if CONST1D["ok"] else []), timeout=900)
     if rc != 0:
         raise RuntimeError("driver_c17 gen failed: " + err[-2000:])
     try:
@@ -371,14 +391,16 @@ def build_all(res):
     core.proof_coverage(res, coq)
     ok_d, log_d = ensure_driver()
     # thorough: the same harness under ASan + UBSan (assertions stay enabled)
-    ok_h, exe, log_h = build_harness(flags=SAN, tag="_san") if res.tier == "thorough" else build_harness()
+    base = () if CONST1D["ok"] else ("-DHS_NO_CONST1D",)
+    ok_h, exe, log_h = (build_harness(flags=tuple(SAN) + base, tag="_san" + ("" if CONST1D["ok"] else "_noc1"))
+                        if res.tier == "thorough" else build_harness(flags=base, tag="" if CONST1D["ok"] else "_noc1"))
     problems, pending = [], None
     if not ok_d:
         problems.append(("build:model-extraction-or-driver_c17", log_d))
     if not ok_h:
         step = "build:harness-h_serial-does-not-compile-against-%s" % core.INCLUDE
         # look for a failing input with the part of the harness that still compiles (no 0-D arrays)
-        ok_f, exe_f, _log_f = build_harness(flags=("-DHS_NO_RANK0",), tag="_norank0")
+        ok_f, exe_f, _log_f = build_harness(flags=("-DHS_NO_RANK0",) + base, tag="_norank0" + ("" if CONST1D["ok"] else "_noc1"))
         if ok_f and ok_d:
             exe, pending = exe_f, (step, log_h)
         else:
@@ -404,6 +426,12 @@ def canonical(block):
 
 def run(tier, seed, replay=None):
     res = core.Result(PID, tier, seed, level="proof")
+    if not replay:
+        const1d_probe(res)
+    else:
+        rc, _o, _e = core.sh(["g++", "-std=c++17", "-fsyntax-only", "-I" + core.INCLUDE,
+                              os.path.join(core.VERIF, "harness", "c17_constview_probe.cpp")], timeout=600)
+        CONST1D["ok"] = (rc == 0)
     coq, exe, pending_build = build_all(res)
     if exe is None:
         return res.finish()
